@@ -419,8 +419,12 @@ def random_tree(rng, depth, flags):
         c = True
     elif cr < 0.24:
         c = False
-    elif cr < 0.55:
+    elif cr < 0.45:
         c = ("!", c)
+    elif cr < 0.55:
+        c = ("!", ("!", c))            # nested negations: each one swaps the branches once
+    elif cr < 0.60:
+        c = ("!", ("!", ("!", c)))
     if r < 0.72:
         return ("I", c, random_tree(rng, depth - 1, flags))
     if r < 0.92:
@@ -492,6 +496,13 @@ def bounded(payload):
 
     # exhaustive part: full alphabet, canonical up to renaming the two flags
     conds = [True, False, "p", ("!", "p"), "q", ("!", "q")]
+    # doubly / triply negated guards on the smallest shapes (negation-parity handling)
+    for cc in (("!", ("!", "p")), ("!", ("!", ("!", "p")))):
+        for t in (("I", cc, ("L", "a")), ("E", cc, ("L", "a"), ("L", "b")),
+                  ("B", ("L", "s"), ("E", cc, ("L", "a"), ("L", "b"))),
+                  ("E", cc, ("E", "p", ("L", "a"), ("L", "b")), ("L", "c")),
+                  ("E", cc, ("L", "a"), ("E", "p", ("L", "b"), ("L", "c")))):
+            run(label(t), "exhaustive")
     by_size = _enumerate(max_size, conds, with_loop=True)
     for n in range(1, max_size + 1):
         for t in by_size[n]:
